@@ -134,6 +134,15 @@ class HeapExec(DynExec):
              'normalized': SStr(F['normalized'](b, pos)), '__base__': seg['base'], '__pos__': pos}
         for k, v in uni.items():
             f[k] = v
+        for k in st.ghost.get('__taint__', ()):
+            # this field was written for some element in an earlier (abstract) loop iteration: value unknown
+            if k in f and k not in uni:
+                from .loops import fresh_like
+                nv = fresh_like(self, f[k], tag + '_' + k)
+                if nv is not None:
+                    f[k] = nv
+                    if k == 'value':
+                        f['TXT'] = None
         r = self.new_obj(st, 'Token', f)
         # class facts: groups are TokenList instances with ttype None; leaves are plain Tokens with a ttype
         is_list = subclass_formula(W, cls, W.sql.TokenList)
@@ -150,6 +159,11 @@ class HeapExec(DynExec):
         and whose text is the group's text)"""
         o = st.objs[rec.oid]
         if o.get('tokens') is None:
+            if '#children' in st.ghost.get('__taint__', ()):
+                # children lists were modified in an earlier (abstract) loop iteration: nothing is known about them
+                sid = self.new_seg(st, name='children')
+                o['tokens'] = self.new_list(st, [('seg', sid)])
+                return o['tokens']
             txt = self.z_str(o['TXT']) if o.get('TXT') is not None else None
             sid = self.new_seg(st, txt=txt, uni={'parent': rec}, name='children')
             # I3: a group is never empty
@@ -183,7 +197,11 @@ class HeapExec(DynExec):
             return None
         fo = st.objs[o.oid]
         cands = []
-        for k in W.classes:
+        provmap = {k: next((b for b in k.__mro__ if name in vars(b)), None) for k in W.classes}
+        distinct = {p_ for p_ in provmap.values() if p_ is not None}
+        if len(distinct) == 1:
+            cands = list(distinct)       # the same class provides it for every receiver: no solver query needed
+        for k in (W.classes if not cands else ()):
             # the class whose MRO provides `name` for an instance of k
             prov = next((b for b in k.__mro__ if name in vars(b)), None)
             if prov is None:
@@ -236,7 +254,8 @@ class HeapExec(DynExec):
                     vis.discard(v.oid)
             t = st.objs[v.oid].get('TXT')
             if t is None:
-                raise OutsideSubset('element without ghost text')
+                # value overwritten in a loop (field taint): the text of this element is unknown
+                t = st.objs[v.oid]['TXT'] = fresh_str('unknown_txt')
             return self.z_str(t)
         raise OutsideSubset('text of %r' % (v,))
 
@@ -336,7 +355,10 @@ class HeapExec(DynExec):
                 raise OutsideSubset('index into a possibly empty segment')
             e = self.materialise(s, it[1])
             s1, rest = self.split_seg(s, it[1], z3.IntVal(1))
-            self.add_fact(s, self.segs(s)[s1]['txt'] == self.item_txt(s, ('el', e)))
+            try:
+                self.add_fact(s, self.segs(s)[s1]['txt'] == self.item_txt(s, ('el', e)))
+            except OutsideSubset:
+                pass        # the element's value was overwritten earlier in a loop (field taint): text unknown
             self._replace_seg_everywhere(s, it[1], [('el', e), ('seg', rest)])
             out.append((s, e))
         return out
@@ -455,7 +477,7 @@ class HeapExec(DynExec):
                                         raise OutsideSubset('del: element not unique')
                                     s4.lists[o.lid] = items[:k[0]] + items[k[0] + 1:]
                                     bump(s4, o.lid)
-                                    s4.notes.append(('removed', e))
+                                    self.site('remove', s4, elem=e)
                                     nxt.append(s4)
             cur = nxt
         return [(s, Outcome.NEXT, None) for s in cur]
@@ -474,6 +496,8 @@ class HeapExec(DynExec):
                     it = s1.lists[l.lid]
                     s1.lists[l.lid] = it[:k] + (('el', args[1]),) + it[k:]
                     bump(s1, l.lid)
+                    if self.is_tokens_list(s1, l):
+                        self.site('insert', s1, elem=args[1])
                     out.append((s1, None))
             return out
         if name == 'pop':
@@ -492,7 +516,8 @@ class HeapExec(DynExec):
                             raise OutsideSubset('pop: element not unique')
                         s2.lists[l.lid] = it[:k[0]] + it[k[0] + 1:]
                         bump(s2, l.lid)
-                        s2.notes.append(('removed', e))
+                        if self.is_tokens_list(s2, l):
+                            self.site('remove', s2, elem=e)
                         out.append((s2, e))
             return out
         if name == 'remove':
@@ -503,9 +528,24 @@ class HeapExec(DynExec):
                 # identity equality (assumption 4) and no duplicates (I2): the first occurrence is the only one
                 st.lists[l.lid] = items[:k[0]] + items[k[0] + 1:]
                 bump(st, l.lid)
-                st.notes.append(('removed', x))
+                if self.is_tokens_list(st, l):
+                    self.site('remove', st, elem=x)
                 return [(st, None)]
-            raise OutsideSubset('list.remove of an element that is not materialised in the list')
+            # the element is not known to be at a particular position: afterwards the list is "the same list with
+            # one occurrence of x removed" = an unknown list; ValueError if x is not a member
+            s_err = st.fork()
+            self.raise_on(s_err, 'ValueError', 'list.remove(x): x not in list')
+            if self.is_tokens_list(st, l):
+                self.site('remove', st, elem=x)
+            uni = {}
+            segs_ = [self.segs(st)[it[1]]['uni'] for it in items if it[0] == 'seg']
+            if segs_ and all(it[0] == 'seg' for it in items):
+                common = set.intersection(*[set(u) for u in segs_])
+                uni = {k: segs_[0][k] for k in common if all(u[k] is segs_[0][k] for u in segs_)}
+            sid = self.new_seg(st, uni=uni, name='after_remove')
+            st.lists[l.lid] = (('seg', sid),)
+            bump(st, l.lid)
+            return [(st, None)]
         if name == 'index':
             x = args[0]
             cum = z3.IntVal(0)
@@ -552,6 +592,44 @@ class HeapExec(DynExec):
         if isinstance(v, Rec):
             return NotImplemented
         return super().isinstance_ext(v, cls, st)
+
+    def setattr(self, o, name, v, st):
+        if isinstance(o, Rec) and o.kind == 'Token' and name in TOKEN_FIELDS:
+            self.site('store:' + name, st, obj=o, new=v)
+            st.ghost['__taint__'] = st.ghost.get('__taint__', frozenset()) | {name}
+        return super().setattr(o, name, v, st)
+
+    # ------------------------------------------------------------------ per-site obligations (C06 / C08)
+    def is_tokens_list(self, st, lref):
+        return any(isinstance(f.get('tokens'), LRef) and f['tokens'].lid == lref.lid for f in st.objs.values())
+
+    def site(self, kind, st, **bind):
+        """a mutation site of the tree was reached on this path: emit the contract's obligations for that kind"""
+        sites = getattr(self.contract, 'sites', None) if self.contract is not None else None
+        if not sites:
+            return
+        n = st.ghost.get('__nsites__', 0)
+        st.ghost['__nsites__'] = n + 1
+        for j, e in enumerate(sites.get(kind, sites.get(kind.split(':')[0] + ':*', []))):
+            self.goal('%s/site[%s]#%d' % (self.fn, kind, j), st, self.spec(e, st, bind), {'site': kind, 'must': e})
+        if kind not in sites and kind.split(':')[0] + ':*' not in sites and kind.split(':')[0] in ('store', 'remove', 'insert'):
+            if sites.get('__closed__'):
+                self.goal('%s/site[%s]/no such mutation is allowed here' % (self.fn, kind), st, False, {'site': kind})
+
+    def call(self, f, args, kw, st, node=None):
+        W = self.W
+        if f is W.sql.Token:
+            # constructor of a leaf: allocate, then run the real Token.__init__ in place (its contract is verified
+            # separately); the ghost text of a leaf is its value
+            o = self.new_obj(st, 'Token', {'CLS': W.cls_const[W.sql.Token], 'TXT': None})
+            from . import models
+            out = []
+            for s, _ in models.call_repo(self, 'sqlparse.sql.Token.__init__', o, list(args), dict(kw), st):
+                s.objs[o.oid]['TXT'] = s.objs[o.oid]['value']
+                s.objs[o.oid]['__fresh__'] = True
+                out.append((s, o))
+            return out
+        return super().call(f, args, kw, st, node)
 
     def call_ext(self, f, args, kw, st):
         if f is setattr:
@@ -603,7 +681,104 @@ class HeapExec(DynExec):
             return NotImplemented
         if stmt.orelse:
             raise OutsideSubset('for/else over opaque list')
-        return self.foreach_uniform(stmt.target, stmt.body, st, it)
+        if not (lc and lc.get('arbitrary')):
+            try:
+                probe = st.fork()
+                marks = len(self.goals)
+                return self.foreach_uniform(stmt.target, stmt.body, probe, it)
+            except OutsideSubset:
+                del self.goals[marks:]
+        return self.foreach_arbitrary(stmt, st, it, key, lc)
+
+    def foreach_arbitrary(self, stmt, st, lref, key, lc):
+        """sound over-approximation of `for x in L: body` for per-site obligations: every iteration is executed for an
+        ARBITRARY element of L in a state where everything the body can write on a continuing path has been havoc'ed
+        (variables, lists, and - through the field taint - token fields); after the loop that havoc'ed state continues.
+        No invariant is needed for obligations that only speak about the local state of a mutation site."""
+        from . import loops
+        go = fresh('iterate', z3.BoolSort())
+
+        def guard(s):
+            return fresh('iterate', z3.BoolSort())
+
+        def bind(s):
+            n = self.zlen(s, lref)
+            k = fresh('k', z3.IntSort())
+            res = []
+            for s1, ok in self.decide(s, n > 0):
+                if not ok:
+                    continue
+                s1.assume(z3.And(k >= 0, k < n))
+                for s2, e in self.elem_at(s1, lref, k):
+                    res.extend(self.assign(stmt.target, e, s2))
+            return res
+
+        def advance(s):
+            pass
+        return loops.run_cut_loop(self, stmt, st, key, dict(lc or {}), guard, bind, advance, self.fn)
+
+    def havoc_list_var(self, st, name):
+        """a local variable that holds a list and is re-bound / extended in a loop: an unknown list of tokens"""
+        sid = self.new_seg(st, name='havoc_' + name)
+        return self.new_list(st, [('seg', sid)])
+
+    def assume_inv(self, inv, st):
+        """loop invariants of the form ALL(list, 'field', value) are assumed by installing the uniform fact"""
+        try:
+            node = ast.parse(inv.strip(), mode='eval').body
+        except SyntaxError:
+            return False
+        if not (isinstance(node, ast.Call) and isinstance(node.func, ast.Name) and node.func.id == 'ALL'
+                and len(node.args) == 3):
+            return False
+        tmp = st.fork()
+        old, self._in_spec = getattr(self, '_in_spec', False), True
+        try:
+            lst = self.eval1(node.args[0], tmp)
+            field = self.eval1(node.args[1], tmp)
+            val = self.eval1(node.args[2], tmp)
+        finally:
+            self._in_spec = old
+        if not isinstance(lst, LRef):
+            return False
+        for it in st.lists[lst.lid]:
+            if it[0] == 'seg':
+                seg = dict(self.segs(st)[it[1]])
+                seg['uni'] = dict(seg['uni'])
+                seg['uni'][field] = val
+                self.segs(st)[it[1]] = seg
+            elif isinstance(it[1], Rec):
+                have = st.objs[it[1].oid].get(field)
+                t = self.eq(have, val, st)
+                st.assume(z3.BoolVal(t) if isinstance(t, bool) else t)
+        return True
+
+    def havoc_list_ext(self, st, lid):
+        """a list that is structurally modified inside a loop: at the loop head it is an unknown list of tokens"""
+        sid = self.new_seg(st, name='havoc')
+        st.lists[lid] = (('seg', sid),)
+        bump(st, lid)
+
+    def store_index_ext(self, o, i, v, st):
+        if isinstance(o, Rec) and o.kind == 'Token':
+            o = self.getattr(o, 'tokens', st)
+        if isinstance(o, LRef) and self.is_intlike(i):
+            n = self.zlen(st, o)
+            out = []
+            for s, pos in self.norm_index(st, i, n, False):
+                for s2, e in self.elem_at(s, o, pos):
+                    items = s2.lists[o.lid]
+                    k = [j for j, x in enumerate(items) if x[0] == 'el' and x[1] is e]
+                    if len(k) != 1:
+                        raise OutsideSubset('item store: element not unique')
+                    s2.lists[o.lid] = items[:k[0]] + (('el', v),) + items[k[0] + 1:]
+                    bump(s2, o.lid)
+                    if self.is_tokens_list(s2, o):
+                        self.site('remove', s2, elem=e)
+                        self.site('insert', s2, elem=v)
+                    out.append(s2)
+            return out
+        return super().store_index_ext(o, i, v, st)
 
     def foreach_uniform(self, target, body, st, lref):
         """summarise `for x in L: body`: explicit elements are executed in order; for an opaque segment the body is
@@ -841,6 +1016,32 @@ def _canon_items(st, items):
 
 
 SEGTXT = z3.Function('SEGTXT', z3.IntSort(), z3.IntSort(), z3.IntSort(), z3.StringSort())
+
+
+def bind_elem_or_none(list_expr, idx_name, tok_name):
+    """loop-head binding for the pattern `idx, token = tlist.token_next_by(...)` / `while token:`: after the havoc
+    the pair is (None, None) or (i, list[i]) for an arbitrary valid index i"""
+    def bind(ex, head):
+        s_none = head.fork()
+        s_none.env[idx_name] = None
+        s_none.env[tok_name] = None
+        r = ex.eval(ast.parse(list_expr, mode='eval').body, head)
+        out = [s_none]
+        for s, lst in r:
+            if isinstance(lst, Rec):
+                lst = ex.getattr(lst, 'tokens', s)
+            n = ex.zlen(s, lst)
+            k = fresh(idx_name, z3.IntSort())
+            for s1, ok in ex.decide(s, n > 0):
+                if not ok:
+                    continue
+                s1.assume(z3.And(k >= 0, k < n))
+                for s2, e in ex.elem_at(s1, lst, k):
+                    s2.env[idx_name] = SInt(k)
+                    s2.env[tok_name] = e
+                    out.append(s2)
+        return out
+    return bind
 
 
 class _NeedCase(Exception):
